@@ -471,6 +471,9 @@ func genC03(r *Rng, tier string) []*Case {
 				switch r.Intn(6) {
 				case 0:
 					q.Max = ip(r.Intn(15))
+					if r.Chance(25) {
+						q.Max = ip(0) // an explicit 0 means "no limit", exactly like an absent value
+					}
 				case 1:
 					q.Freq, q.Min = ip(1+r.Intn(3)), ip(1+r.Intn(5))
 				case 2:
